@@ -149,6 +149,10 @@ func (p *Program) Reaches(modulePath, pkgPath, root string, forbidden, through [
 				return
 			}
 			q := qual(sc)
+			if sc.Pkg != nil && forb[sc.Pkg.Pkg.Name()+".*"] {
+				// "<package>.*": any function of that package
+				q = sc.Pkg.Pkg.Name() + ".*"
+			}
 			if forb[q] {
 				if _, ok := out[q]; !ok {
 					out[q] = fn.String()
